@@ -63,14 +63,14 @@ def run(ctx):
     tp = L.consts().get("LOOP_TO_PROCESS", L.TO_PROCESS_FALLBACK)
     rng = ctx.rng
     thorough = ctx.tier == "thorough" or not ctx.proof_ok
-    nwork = 1200 if thorough else 120
-    ngen = 4000 if thorough else 400
+    nwork = 4000 if thorough else 500
+    ngen = 12000 if thorough else 1500
     cases = corpus()
     kinds = {"corpus": len(cases), "workload": nwork, "general_no_signals": ngen}
     for i in range(nwork):
         cases.append(L.gen_workload(rng, turns=(rng.choice([60, 120]) if thorough and i % 40 == 0 else None)))
     for i in range(ngen):
-        cases.append(L.gen_general(rng, size=3, sigs=False))
+        cases.append(L.gen_general(rng, size=3, sigs=False, dupfd=False))
     impl, mod = L.execute(cases, exe, model)
     ncb = nturn = starv_windows = 0
     timeouts = {}
@@ -104,7 +104,7 @@ def run(ctx):
             break
     res.rule = ("scripts for the real loop with a virtual kernel: hand-made corpus, then workloads (self-re-adding jobs, "
                 "always-ready descriptors, zero-delay timers re-armed from their callbacks at the three priorities in random "
-                "proportions, one lone item at a random level, 6-120 turns), then general histories without signals "
+                "proportions, one lone item at a random level, 6-120 turns), then general histories without signals and without a second poll_add of a descriptor already added (C08's subject) "
                 "(adds/mods/deletes from outside and inside callbacks); a case is non-trivial when it has >= 3 turns and "
                 ">= 3 callback invocations; distinct = distinct scripts")
     res.samples = [{"script": c[-6:]} for c in cases[:2] + cases[len(corpus()):len(corpus()) + 1]]
